@@ -702,11 +702,18 @@ def ties(src):
         return (f"Goal forall d1 d2 k mn mx n_over : nat, mn = Nat.min d1 d2 -> mx = Nat.max d1 d2 -> "
                 f"dec_rand_transposed d1 d2 k mn (dec_rand_ndims k n_over mx) = {tests[0]}.\nProof. tie. Qed.\n")
 
+    def is_chain_head(st):
+        """first statement of the dispatch chain: `if method == "<name>":` or `if callable(method):`"""
+        if not isinstance(st, ast.If):
+            return False
+        t = st.test
+        return (isinstance(t, ast.Compare) and isinstance(t.left, ast.Name) and t.left.id == "method") or \
+               (is_call(t, "callable") and len(t.args) == 1 and isinstance(t.args[0], ast.Name) and t.args[0].id == "method")
+
     def t_dispatch():
         """the if / elif chain of svd_interface: method == "<name>" -> svd_fun = <function>; callable(method) -> method; else raise"""
         fn = funs["svd_interface"]
-        chain = next((st for st in fn.body if isinstance(st, ast.If) and isinstance(st.test, ast.Compare)
-                      and isinstance(st.test.left, ast.Name) and st.test.left.id == "method"), None)
+        chain = next((st for st in fn.body if is_chain_head(st)), None)
         if chain is None:
             raise Untranslatable("no `if method == ...` chain")
         table, user, rejects = {}, False, False
@@ -719,8 +726,7 @@ def ties(src):
             t = node.test
             if isinstance(t, ast.Compare) and len(t.ops) == 1 and isinstance(t.ops[0], ast.Eq) and isinstance(t.left, ast.Name) \
                     and t.left.id == "method" and isinstance(t.comparators[0], ast.Constant) and isinstance(t.comparators[0].value, str):
-                if user:
-                    raise Untranslatable("a name test after the callable test")
+                # (a name test may follow the callable test: a str is never callable, so the order of the two kinds is immaterial)
                 table.setdefault(t.comparators[0].value, tgt.value.id)
             elif is_call(t, "callable") and tgt.value.id == "method":
                 user = True
@@ -751,7 +757,78 @@ def ties(src):
         return ("Definition ast_dispatch (m : method) : option fname :=\n  match m with " + " | ".join(arms) + " end.\n"
                 "Goal forall m, dispatch m = ast_dispatch m.\nProof. intros []; reflexivity. Qed.\n")
 
+    def t_interface_steps():
+        """round 5: the statements of svd_interface after the dispatch chain -> the trace of post-processing steps (which run, in
+        which order, under which guard), proved equal to Proofs/SvdDecisions.v interface_trace through which Model/Svd.v
+        svd_interface factors (svd_interface_traced)"""
+        fn = funs["svd_interface"]
+        body = list(fn.body)
+        idx = next((i for i, st in enumerate(body) if is_chain_head(st)), None)
+        if idx is None:
+            raise Untranslatable("no dispatch chain")
+
+        def calls_in(node):
+            return {(c.func.id if isinstance(c.func, ast.Name) else getattr(c.func, "attr", None))
+                    for c in ast.walk(node) if isinstance(c, ast.Call)}
+        FLAG = {"mask": "mg", "n_eigenvecs": "ng"}
+
+        def guard(e):
+            if isinstance(e, ast.BoolOp):
+                op = " && " if isinstance(e.op, ast.And) else " || "
+                return "(" + op.join(guard(v) for v in e.values) + ")"
+            if isinstance(e, ast.UnaryOp) and isinstance(e.op, ast.Not):
+                return f"(negb {guard(e.operand)})"
+            if isinstance(e, ast.Name) and e.id == "flip_sign":
+                return "fl"
+            if isinstance(e, ast.Name) and e.id == "non_negative":
+                return "(nn_truthy a)"
+            if isinstance(e, ast.Compare) and len(e.ops) == 1 and isinstance(e.left, ast.Name) and isinstance(e.comparators[0], ast.Constant) \
+                    and isinstance(e.ops[0], (ast.Is, ast.IsNot)):
+                nm, c_ = e.left.id, e.comparators[0].value
+                pos = None
+                if nm in FLAG and c_ is None:
+                    pos = f"(negb {FLAG[nm]})"                    # `x is None`
+                elif nm == "non_negative" and c_ is None:
+                    pos = "(nn_is_none a)"
+                elif nm == "non_negative" and c_ is False:
+                    pos = "(nn_is_false a)"
+                if pos is not None:
+                    return pos if isinstance(e.ops[0], ast.Is) else f"(negb {pos})"
+            raise Untranslatable("guard " + ast.dump(e)[:80])
+        steps, nn_guard, seen_call = [], None, False
+        for st in body[idx + 1:]:
+            cs = calls_in(st)
+            if isinstance(st, ast.Return):
+                break
+            if isinstance(st, ast.Assign) and "svd_fun" in cs:
+                if seen_call:
+                    raise Untranslatable("more than one unconditional back-end call")
+                seen_call = True
+                steps.append("[StepCall]")
+            elif isinstance(st, ast.If) and not st.orelse and "svd_fun" in cs and not ({"svd_flip", "make_svd_non_negative"} & cs):
+                steps.append(f"(if {guard(st.test)} then [StepMaskLoop] else [])")
+            elif isinstance(st, ast.If) and not st.orelse and "svd_flip" in cs and not ({"svd_fun", "make_svd_non_negative"} & cs):
+                steps.append(f"(if {guard(st.test)} then [StepFlip] else [])")
+            elif isinstance(st, ast.If) and not st.orelse and "make_svd_non_negative" in cs and not ({"svd_fun", "svd_flip"} & cs):
+                if nn_guard is not None:
+                    raise Untranslatable("two non_negative steps")
+                nn_guard = guard(st.test)
+                steps.append("(if nn_on then [StepNN] else [])")
+            elif isinstance(st, ast.Expr) and isinstance(st.value, ast.Constant):
+                continue
+            else:
+                raise Untranslatable(f"statement at line {st.lineno} is not one of the modelled post-processing steps")
+        if not seen_call or nn_guard is None:
+            raise Untranslatable("back-end call / non_negative step not found")
+        if any(x in nn_guard for x in ("mg", "ng", "fl")) or any("a)" in x for x in steps):
+            raise Untranslatable("guards mix option kinds")
+        return ("From Coq Require Import List. Import ListNotations.\n"
+                "Definition ast_trace (mg ng fl nn_on : bool) : list istep :=\n  " + " ++ ".join(steps) + ".\n"
+                "Goal forall mg ng fl nn_on, interface_trace mg ng fl nn_on = ast_trace mg ng fl nn_on.\nProof. intros [] [] [] []; reflexivity. Qed.\n"
+                f"Goal forall a, nn_truthy a = {nn_guard}.\nProof. intros []; reflexivity. Qed.\n")
+
     attempt("svd_interface", t_dispatch)
+    attempt("svd_interface_steps", t_interface_steps)
     attempt("svd_checks", t_svd_checks)
     attempt("truncated_svd", t_truncated)
     attempt("symeig_svd", t_symeig)
@@ -854,7 +931,7 @@ def configs(tier, rng):
                          mask=make_mask(shape, rng), iters=2, kwargs={"user_option": 3}),
                     dict(matrix=M, kind=kind, method=rng.choice(["truncated_svd", "callable"]), n=None, flip=True, ub=True, nn=None,
                          mask=make_mask(shape, rng), iters=2, kwargs={}),
-                    dict(matrix=np.abs(M), kind=kind + "+abs", method="truncated_svd", n=nm, flip=True, ub=True, nn=rng.choice(["nndsvd", "nndsvda"]),
+                    dict(matrix=np.abs(M), kind=kind + "+abs", method="truncated_svd", n=nm, flip=True, ub=True, nn=rng.choice(["nndsvda", "nndsvda", "nndsvd"]),
                          mask=make_mask(shape, rng), iters=rng.choice([1, 2]), kwargs={})]
                 for c_ in (rng.sample(extra, 2) if tier == "quick" else extra):     # quick: two of the four per matrix
                     yield c_
@@ -899,6 +976,8 @@ def coq_selected(cfg, idx, tier, seed=0):
         return False
     if cfg["method"] not in METH_LIT or cfg["kind"] in ("corpus", "replay"):
         return True
+    if cfg["nn"] not in (None, False) and cfg["mask"] is not None:
+        return True       # few; the only place where NNDSVDA's fill value (mean of the LAST imputed matrix) is compared
     d1, d2 = cfg["matrix"].shape
     base = cfg["kind"].split("+")[0]
     kidx = KINDS.index(base) if base in KINDS else 0
@@ -1063,8 +1142,9 @@ def run(chk):
     chk.cov["tape_missing_skipped"] = skipped_tape
     chk.cov["ill_conditioned_skipped"] = skipped_ill
     chk.cov["exhaustive"] = False
-    chk.cov["rule"] = ("shapes tall/square/wide/1xN/Nx1 x {generic dyadic, integer, rank-deficient, repeated-sigma} matrices x n_eigenvecs in 1..max+2 and None "
-                       "x methods truncated/symeig/randomized/callable x flip {off, U-based, V-based}, plus masked and non_negative requests; every configuration "
+    chk.cov["rule"] = ("shapes tall/square/wide/1xN/Nx1 x {generic dyadic, integer, rank-deficient, repeated-sigma} matrices x n_eigenvecs in 0..max+2 and None "
+                       "x methods truncated/symeig/randomized/callable x flip {off, U-based, V-based}, plus masked (incl. masked randomized_svd with keyword arguments, a masked callable with an extra keyword, "
+                       "a mask without n_eigenvecs, mask + non_negative) and non_negative requests; every configuration "
                        "goes through the Python predicates, the Coq correspondence takes all truncated_svd and masked configurations and a fixed fraction of the others "
                        "(matrices up to 6x6; quick: per shape two of the four kinds), plus direct svd_flip calls on tie/zero/padding matrices, direct symeig_svd calls on well-conditioned matrices "
                        "and direct randomized_svd calls (n_oversamples 0/1/2/5, n_iter 0/1/2, generic / integer / rank-deficient matrices); "
@@ -1075,7 +1155,7 @@ def run(chk):
     chk.trusted += ["oracles: numpy.linalg.svd / eigh answers are taped (Backend.register_method) and handed to the model as data; "
                     "symeig_svd / randomized_svd / callable answers inside svd_interface are taped at the dispatched function",
                     "randomized_svd called directly: the Gaussian test matrix (a recording RandomState), every tl.qr and tl.svd answer are taped",
-                    "Eckart-Young optimality is not mechanised: 'best approximation' is reduced to the error identity of C05_truncated_error"]
+                    "'best approximation' is a theorem (C05_eckart_young, C05_interface_best_approx*); the predicates test only the error identity it is derived from"]
     return chk.finish(CLASSIFIERS)
 
 
